@@ -9,7 +9,8 @@ RULE = ("three input families, each run against a build WITH and a build WITHOUT
         "random ids, shuffled line order) with 0..3 of the same mutations; (c) parameterised edge templates: every operator applied to operands of "
         "every kind (bit-vector of two widths, boolean, array, negated), zero-width sorts, arrays of arrays, u32-overflowing extension/concat widths, "
         "reversed/maximal slice bounds, constants without value, >128-bit constants in all three radixes incl. too many digits, wrap-around decimals, "
-        "non-ASCII digits, name aliasing rules. distinct = distinct texts (HashSet)")
+        "non-ASCII digits, name aliasing rules; a quarter of the edge cases are post-processing templates (states without init and next that are read by outputs / bads / next functions of other states, "
+        "`$` names, duplicated labels, a plain state labelled like an input, aliases). distinct = distinct texts (HashSet)")
 ASSUMPTIONS = [
     "Model/Btor2Parse.v mirrors patronus/src/btor2/parse.rs, the builders of expr/context.rs, TypeCheck of expr/types.rs and baa's from_str_radix "
     "(hand-written; tied by differential execution: three-way class and, for accepted inputs, the whole system incl. names, on every generated case)",
@@ -48,6 +49,8 @@ MANIFEST = dict(
     level_note=("Repaired variant: Model.parse_*_v Fix mirrors parse.rs with patches/000N-fix-btor2-*.diff applied; for it C18_no_crash_fix (no panic on ANY text over the "
                 "supported operators, both profiles) and C18_accepted_well_typed_fix (accepted => full sys_ok and closed) are proved; the driver constant code_variant "
                 "(ocaml/driver/c08.ml, shared by C08/C09/C18) selects Cur (the reader before the series), Fix (= /repo) or Fix2 (= Fix + prepared patches/0009: uext/sext need a bit-vector operand; C18_no_crash_fix2, C18_accepted_well_typed_fix2); patches/verify-btor2-series.sh checks the series in isolation. "
+                "C18_final_accepted_well_typed spells the acceptance half out for the FINAL system (parse_text_v = demote . rename_sys: every symbol used is an input or state of the final system, "
+                "remaining states have an init or next, declared names pairwise different), C18_demoted_among_inputs says where a demoted state ends up. "
                 "The robustness statement is FALSE of the code today: recorded as known findings (one per panic location) and as *_refuted theorems; "
                 "the theorems that hold are stated for inputs outside an explicit KnownClass."),
 )
